@@ -326,7 +326,10 @@ def run(ctx):
                     viol('examples-correspondence', {
                         'what': 'parse_docstr_examples(style=%s): examples (num, lineno) %r warnings %d; Collect model %r warned=%s propagates=%s' % (
                             st, r[1], r[2], mex, mo[1], mo[2]),
-                        'docstring': s, 'style': st, 'theorem_or_correspondence': 'correspondence style_examples/contain (feeds C14_examples_contained, C14_google_blocks)'}, False)
+                        'docstring': s, 'style': st, 'theorem_or_correspondence': 'correspondence style_examples/contain (feeds C14_examples_contained, C14_google_blocks)'},
+                        # a block of this docstring does not parse (oracle) and the examples stop there, yet no warning was issued:
+                        # that is the property's own clause, not only a disagreement with the model
+                        bool(mo[1]) and not r[2])
     embedded(ctx, strings)
     ctx.add_rule('strings assembled from %d fragments (prompts, brackets, quotes, triple quotes, backslashes, directive fragments incl. unbalanced parentheses, '
                  'control characters NUL/FF/VT/CR, keywords, deep nesting, tabs, non-ASCII) and google-structured docstrings with good and broken blocks and skip headers: '
